@@ -3,7 +3,7 @@
    happens-before over real memory and goroutine scheduling are outside the model;
    see notes/C17.md). *)
 From Coq Require Import List Bool String.
-From Cedar Require Import Model.Lockset Model.LocksetFacts Proofs.C17Lockset Proofs.C17Counter Proofs.C17 gen.FactsC17.
+From Cedar Require Import Model.Lockset Model.LocksetFacts Proofs.C17Lockset Proofs.C17Counter Proofs.C17Cache Proofs.C17 gen.FactsC17.
 Import ListNotations.
 Local Open Scope string_scope.
 Local Open Scope list_scope.
@@ -57,6 +57,29 @@ Print Assumptions C17_cache_threads_drf.
 Theorem C17_vars_safe : forallb var_ok var_facts = true /\ var_facts <> [].
 Proof. exact vars_safe. Qed.
 Print Assumptions C17_vars_safe.
+
+(* Command routing: a client-session registration is Store followed by MapCommand and
+   is not atomic w.r.t. other goroutines. For EVERY sequence of the (individually atomic)
+   cache operations - hence every interleaving - a lookup by command yields only the
+   entry that was stored under the id when the mapping was made: no orphan mapping
+   survives a later Store of the same id. *)
+Theorem C17_route_consistent : forall ops k e g,
+  lookup_by_command (cache_run false ops) k = Some (e, g) -> g = Some e.
+Proof. exact route_consistent. Qed.
+Print Assumptions C17_route_consistent.
+
+(* ... whereas purging only on REPLACEMENT misroutes: Store A; Invalidate; MapCommand; Store B *)
+Theorem C17_lazy_purge_misroutes :
+  lookup_by_command (cache_run true [OStore 7 1; OInvalidate 7; OMap 3 7; OStore 7 2]) 3 = Some (2, None).
+Proof. exact lazy_purge_misroutes. Qed.
+Print Assumptions C17_lazy_purge_misroutes.
+
+(* Obligation over the translated source: SessionCache.Store has the purge, guarded by
+   the identity test against the stored entry and by nothing that asks whether an old
+   entry was present - it is the Store of the model. *)
+Theorem C17_store_purges_unconditionally : store_purge_ok store_purge = true.
+Proof. exact store_purges_unconditionally. Qed.
+Print Assumptions C17_store_purges_unconditionally.
 
 (* Identifiers handed out by a shared counter: for all thread lists of atomic-add
    increments and all interleavings the values handed out are pairwise distinct ... *)
